@@ -159,6 +159,11 @@ func Drive(id, tier string, seed int64, root, exe string) int {
 	hashes := map[uint64]struct{}{}
 	var viols []Violation
 	broken := ""
+	type hungCase struct {
+		shard, k int
+		v        Violation
+	}
+	var hungAll []hungCase
 	for s := 0; s < nshards; s++ {
 		var rep Report
 		b, err := os.ReadFile(filepath.Join(out, fmt.Sprintf("report.%d.json", s)))
@@ -218,31 +223,7 @@ func Drive(id, tier string, seed int64, root, exe string) int {
 			// non-terminating; one that finishes is counted inconclusive (and a violation the second run
 			// reports by itself is kept).
 			for k, hv := range hung {
-				confirmed := p.Replay == nil
-				if p.Replay != nil {
-					cf := filepath.Join(out, fmt.Sprintf("hung.%d.%d.json", s, k))
-					rb, _ := json.Marshal(ReplayFile{Property: id, Tier: tier, Seed: seed, What: hv.What, Case: hv.Case})
-					os.WriteFile(cf, rb, 0o644)
-					ctx, cancel := context.WithTimeout(context.Background(), 10*time.Minute)
-					cmd := exec.CommandContext(ctx, exe, "replay", cf, "-root", root)
-					cmd.Run()
-					timedOut := ctx.Err() != nil
-					cancel()
-					code := -1
-					if cmd.ProcessState != nil {
-						code = cmd.ProcessState.ExitCode()
-					}
-					confirmed = timedOut || code == 1
-					if !confirmed {
-						total.Inconclusive["case_outlived_the_wall_clock_bound_but_finishes_alone"]++
-						total.Notes = append(total.Notes, fmt.Sprintf("shard %d: a case outlived the per-case wall-clock bound but finished (exit %d) when run alone in a fresh process: machine stall, inconclusive; case: %s", s, code, Short(string(hv.Case), 300)))
-					} else if timedOut {
-						hv.What += "; confirmed: the same case alone in a fresh process did not finish within 600 s either"
-					}
-				}
-				if confirmed {
-					viols = append(viols, hv)
-				}
+				hungAll = append(hungAll, hungCase{s, k, hv})
 			}
 			total.Counters["shards_incomplete"]++
 			continue
@@ -288,6 +269,56 @@ func Drive(id, tier string, seed int64, root, exe string) int {
 		total.Counters["shards_incomplete"]++
 	}
 	total.Nontrivial += int64(len(hashes))
+
+	// second runs of the cases that outlived the per-case bound, all at once
+	if len(hungAll) > 0 {
+		type verdict struct {
+			confirmed, timedOut bool
+			code                int
+		}
+		vs := make([]verdict, len(hungAll))
+		var hw sync.WaitGroup
+		for i, hc := range hungAll {
+			if p.Replay == nil {
+				vs[i] = verdict{confirmed: true}
+				continue
+			}
+			hw.Add(1)
+			go func(i int, hc hungCase) {
+				defer hw.Done()
+				cf := filepath.Join(out, fmt.Sprintf("hung.%d.%d.json", hc.shard, hc.k))
+				rb, _ := json.Marshal(ReplayFile{Property: id, Tier: tier, Seed: seed, What: hc.v.What, Case: hc.v.Case})
+				os.WriteFile(cf, rb, 0o644)
+				bound := 10 * time.Minute
+				if v, err := strconv.Atoi(os.Getenv("VERIF_HANG_CONFIRM_SECONDS")); err == nil && v > 0 {
+					bound = time.Duration(v) * time.Second // for testing the harness only
+				}
+				ctx, cancel := context.WithTimeout(context.Background(), bound)
+				cmd := exec.CommandContext(ctx, exe, "replay", cf, "-root", root)
+				cmd.Run()
+				timedOut := ctx.Err() != nil
+				cancel()
+				code := -1
+				if cmd.ProcessState != nil {
+					code = cmd.ProcessState.ExitCode()
+				}
+				vs[i] = verdict{confirmed: timedOut || code == 1, timedOut: timedOut, code: code}
+			}(i, hc)
+		}
+		hw.Wait()
+		for i, hc := range hungAll {
+			hv := hc.v
+			if !vs[i].confirmed {
+				total.Inconclusive["case_outlived_the_wall_clock_bound_but_finishes_alone"]++
+				total.Notes = append(total.Notes, fmt.Sprintf("shard %d: a case outlived the per-case wall-clock bound but finished (exit %d) when run alone in a fresh process: machine stall, inconclusive; case: %s", hc.shard, vs[i].code, Short(string(hv.Case), 300)))
+				continue
+			}
+			if vs[i].timedOut {
+				hv.What += "; confirmed: the same case alone in a fresh process did not finish within its second, longer bound either"
+			}
+			viols = append(viols, hv)
+		}
+	}
 
 	// race detector reports (counted from the log files, not from exit codes)
 	if p.Race {
